@@ -349,6 +349,96 @@ def _oversize(d, k):
     return worst
 
 
+def realrun_body(t, k):
+    """C01 on real bytecode: the fixture workload recorded from the running interpreter (real code objects,
+    real f_lasti, real values) goes through the real tracer, logger, SQLite store, decoder and stub
+    generation; every annotation of every stubbed function must admit the values observed at its position."""
+    import harness.c02 as C2
+
+    ASSUME(k >= 0)
+    rw = REWRITERS[t.take(len(REWRITERS))]
+    flag = FLAGS[t.take(len(FLAGS))]
+    evs = C2.recorded_events()
+    conn = sqlite3.connect(":memory:")
+    create_call_trace_table(conn)
+    store = SQLiteStore(conn)
+    logger = CallTraceStoreLogger(store)
+    tracer = CallTracer(logger, k, None, None)
+    proxies = {}
+    for e in evs:
+        fr = proxies.get(e.frame_id)
+        if fr is None:
+            back = None
+            for locs in reversed(e.back_locals):
+                back = FakeFrame(None, locs, {}, back)
+            fr = proxies[e.frame_id] = FakeFrame(e.code, {}, e.globals, back)
+        fr.f_locals, fr.f_lasti = e.locals, e.lasti
+        tracer(fr, e.event, e.arg)
+    logger.flush()
+    strategy = {"--ignore-existing-annotations": S.IGNORE, "--omit-existing-annotations": S.OMIT}.get(flag, S.REPLICATE)
+    out, err = Sink(), Sink()
+    args = argparse.Namespace(module_path=(M, None), limit=2000, verbose=True, config=PipeConfig(store, k, make_rewriter(rw)),
+                              disable_type_rewriting=(flag == "--disable-type-rewriting"), existing_annotation_strategy=strategy, sample_count=False)
+    stub = cli.get_stub(args, out, err)
+    conn.close()
+    text = stub.render() if stub is not None else None
+
+    def fail(msg):
+        return check(False, lambda: f"recorded workload, rewriter={rw} flag={flag} k={int(k)}: {msg}")
+
+    if text is None:
+        return fail(f"no stub generated; stderr={err.getvalue()!r}")
+    try:
+        info = parse_stub(text, M)
+    except StubError as e:
+        return fail(f"{e}\n--- stub ---\n{text}")
+    expected, _unfinished = C2._expected_log(evs, lambda code: True, k)
+    seen_functions = 0
+    for code, entry, ret_present, ret_value, yields in expected:
+        qn = code.co_qualname
+        if "<locals>" in qn or code.co_name in ("__init__",):
+            continue
+        fis = info.functions.get(qn)
+        if not fis:
+            return fail(f"finished call of {qn} has no function stub\n--- stub ---\n{text}")
+        if len(fis) != 1:
+            return fail(f"{qn} stubbed {len(fis)} times")
+        fi = fis[0]
+        seen_functions += 1
+        for name, v in entry.items():
+            if name in ("self", "cls") and name == code.co_varnames[0]:
+                continue
+            anno = fi.annotations.get(name)
+            if anno is None:
+                return fail(f"{qn}: traced parameter {name} has no annotation")
+            if not O.conforms(v, anno):
+                return fail(f"{qn}: parameter {name}: {O.show_type(anno)} does not admit the observed value {show(v)}")
+        if not (ret_present or yields):
+            continue
+        if not fi.has_return:
+            return fail(f"{qn}: returned/yielded but the stub has no return annotation")
+        anno = fi.returns
+        if yields:
+            if not (O.is_generic(anno) and O.gname(anno) in ("Iterator", "Generator")):
+                return fail(f"{qn}: generator annotated {O.show_type(anno)}")
+            a = O.args_of(anno)
+            for y in yields:
+                if not O.conforms(y, a[0]):
+                    return fail(f"{qn}: {O.show_type(anno)} does not admit the yielded value {show(y)}")
+            if ret_present:
+                if O.gname(anno) == "Generator":
+                    if not O.conforms(ret_value, a[2]):
+                        return fail(f"{qn}: {O.show_type(anno)} does not admit the returned value {show(ret_value)}")
+                elif ret_value is not None:
+                    return fail(f"{qn}: generator returned {show(ret_value)} but is annotated {O.show_type(anno)}")
+        elif ret_present and not O.conforms(ret_value, anno):
+            return fail(f"{qn}: return annotation {O.show_type(anno)} does not admit the returned value {show(ret_value)}")
+    return check(seen_functions >= 25, lambda: f"only {seen_functions} functions of the workload were stubbed")
+
+
+tape_harness("c01_realrun", [("t", 2)], {"k": "int"}, realrun_body, globals())
+
+
 G_DICT = Grammar(top_atoms=("int", "None"), elem_atoms=("int", "str"), containers=("dict_str", "dict_int", "dict_mixed", "list"), max_size=2,
                  depth=1, str_keys=("a", "b", "c"), dict_max=3)
 _CFG = {
@@ -370,6 +460,8 @@ def shards(name, prefix=5):
 
     if name == "c06_two_funcs":
         return [{f"t{j}": v for j, v in enumerate(p)} for p in enumerate_prefixes(lambda t: two_funcs_body(t, 2), prefix)]
+    if name == "c01_realrun":
+        return [{"t0": i, "t1": j} for i in range(len(REWRITERS)) for j in range(len(FLAGS))]
 
     _b, g, n, full = _CFG[name]
     pres = enumerate_prefixes(lambda t: decode_case(t, g, n, full), prefix)
@@ -379,8 +471,8 @@ def shards(name, prefix=5):
 def describe(name, args):
     from engine.verdicts import Tape
 
-    if name == "c06_two_funcs":
-        return dict(args)
+    if name in ("c06_two_funcs", "c01_realrun"):
+        return dict(args, rewriter=REWRITERS[min(max(args.get("t0", 0), 0), len(REWRITERS) - 1)]) if name == "c01_realrun" else dict(args)
 
     _b, g, n, full = _CFG[name]
     ks = sorted((k for k in args if k[0] == "t" and k[1:].isdigit()), key=lambda s: int(s[1:]))
